@@ -438,6 +438,80 @@ def _d2_dbcheck(ctx):
                             "%s is not passed to _get_sanity_report" % lst, sc.qname, "argument " + lst)
                     continue
                 p = prm[0]
+                # the list that is counted is the list that was collected: not re-bound, filtered or edited on the way
+                for fn, nm in ((rep, p), (sc, caller_name.get(lst, lst))):
+                    touched = []
+                    for n in ast.walk(fn.node):
+                        tg = []
+                        if isinstance(n, ast.Assign):
+                            tg = [x for t in n.targets for x in ([t] if not isinstance(t, (ast.Tuple, ast.List)) else t.elts)]
+                        elif isinstance(n, (ast.AugAssign, ast.AnnAssign)):
+                            tg = [n.target]
+                        elif isinstance(n, ast.Delete):
+                            tg = n.targets
+                        if any((isinstance(t, ast.Name) and t.id == nm) or (isinstance(t, ast.Subscript) and U(t.value) == nm) for t in tg):
+                            if fn is sc and C.is_call_to(getattr(n, "value", None), "_check_sanity_arch_db"):
+                                continue
+                            touched.append(n)
+                        if isinstance(n, ast.Call) and isinstance(n.func, ast.Attribute) and U(n.func.value) == nm and n.func.attr in (
+                                "remove", "pop", "clear", "append", "extend", "insert", "sort", "reverse"):
+                            touched.append(n)
+                    harmless = [n for n in touched if isinstance(n, ast.Call) and n.func.attr in ("sort", "reverse")]
+                    touched = [n for n in touched if n not in harmless]
+
+                    def can_drop(e, depth=2):
+                        """True: the expression can yield fewer/other elements than its argument; False: a copy / re-ordering;
+                        None: not understood"""
+                        if isinstance(e, ast.Name):
+                            return False
+                        if isinstance(e, ast.Subscript) and isinstance(e.slice, ast.Slice):
+                            return U(e.slice) != ":"
+                        if isinstance(e, (ast.ListComp, ast.GeneratorExp)):
+                            if any(g.ifs for g in e.generators):
+                                return True
+                            if len(e.generators) == 1 and U(e.elt) == U(e.generators[0].target):
+                                return False
+                            return can_drop(e.elt, depth)        # one result per source list (tuple assignment)
+                        if isinstance(e, ast.Call):
+                            nmc = (pm.call_name(e) or "").split(".")[-1]
+                            if nmc in ("list", "tuple", "sorted", "reversed", "copy", "deepcopy") and e.args:
+                                return can_drop(e.args[0], depth)
+                            if nmc in ("set", "frozenset", "filter", "fromkeys", "unique"):
+                                return True
+                            h = ctx.repo.funcs.get("%s.%s" % (fn.module.stem, nmc))
+                            if h is not None and depth:
+                                cond_app = any(isinstance(c, ast.Call) and isinstance(c.func, ast.Attribute) and c.func.attr in ("append", "add")
+                                               and any(True for _ in C.facts_at(c, stop=h.node)) for c in ast.walk(h.node))
+                                comp_if = any(isinstance(c, ast.comprehension) and c.ifs for c in ast.walk(h.node))
+                                dedup = any(isinstance(c, ast.Call) and (pm.call_name(c) or "").split(".")[-1] in ("set", "fromkeys", "filter")
+                                            for c in ast.walk(h.node))
+                                if cond_app or comp_if or dedup:
+                                    return True
+                                return None
+                        return None
+                    verdicts = []
+                    for n in touched:
+                        if isinstance(n, ast.Assign) and not any(isinstance(t, ast.Subscript) for t in n.targets):
+                            verdicts.append(can_drop(n.value))
+                        else:
+                            verdicts.append(True)        # element stores, deletes, remove/pop/append/...: the content changes
+                    if touched and not any(v is True for v in verdicts):
+                        if any(v is None for v in verdicts):
+                            ctx.unknown("D2", "%s reaches the count unchanged" % lst, fn.where(touched[0]),
+                                        "`%s` re-binds the list; whether elements can get lost is not recognised" % U(touched[0])[:100])
+                        else:
+                            ctx.ok("D2", "%s is only copied / re-ordered in %s" % (nm, fn.name), fn.where())
+                        touched = []
+                        continue
+                    if touched:
+                        ctx.bad("D2", "%s reaches the count unchanged" % lst, fn.where(touched[0]),
+                                "between its collection in _check_sanity_arch_db and the '%s' line the list is changed by `%s`: the "
+                                "number printed is no longer the number of forms of the model file that lack the value (forms that "
+                                "differ only in what the change ignores - e.g. the addressing mode of a memory operand in the "
+                                "readable name - are counted once)" % (phrase, U(touched[0])[:100]), fn.qname,
+                                "%s changed before counting" % lst)
+                    else:
+                        ctx.ok("D2", "%s is not re-bound or edited in %s" % (nm, fn.name), fn.where())
                 lens = [U(a) for a in call.args]
                 good = len(lens) == 3 and lens[1] == "len(%s)" % p and pm.match(
                     "round(100 * len(%s) / %s)" % (p, params[0]), call.args[0]) is not None and lens[2] == params[0]
